@@ -201,7 +201,7 @@ fn dump<'tcx>(tcx: TyCtxt<'tcx>, out_dir: &str) {
 }
 
 fn rustc_version() -> String {
-    option_env!("CFG_VERSION").unwrap_or("nightly").to_string()
+    std::env::var("MIRFACTS_RUSTC_VERSION").unwrap_or_else(|_| "nightly".to_string())
 }
 
 fn dump_adt<'tcx>(cx: &Cx<'tcx>, did: DefId) -> J {
@@ -401,7 +401,9 @@ fn place_j<'tcx>(cx: &Cx<'tcx>, body: &Body<'tcx>, p: &Place<'tcx>) -> J {
             PlaceElem::Deref => proj.push(J::s("*")),
             PlaceElem::Field(f, _fty) => {
                 let mut name: Option<String> = None;
+                let mut adt_path: Option<String> = None;
                 if let ty::Adt(adt, _) = pty.ty.kind() {
+                    adt_path = Some(cx.path(adt.did()));
                     let vi = pty.variant_index.unwrap_or(rustc_abi::FIRST_VARIANT);
                     if adt.is_enum() || adt.is_struct() || adt.is_union() {
                         if vi.as_usize() < adt.variants().len() {
@@ -415,6 +417,9 @@ fn place_j<'tcx>(cx: &Cx<'tcx>, body: &Body<'tcx>, p: &Place<'tcx>) -> J {
                 let mut o = vec![("f", J::Num(f.as_usize() as i128))];
                 if let Some(n) = name {
                     o.push(("n", J::s(n)));
+                }
+                if let Some(a) = adt_path {
+                    o.push(("a", J::s(a)));
                 }
                 proj.push(J::obj(o));
             }
@@ -590,7 +595,23 @@ fn rvalue_j<'tcx>(
             ("op", J::s(format!("{:?}", op))),
             ("a", operand_j(cx, body, typing_env, a)),
         ]),
-        Rvalue::Discriminant(p) => J::obj(vec![("k", J::s("discr")), ("pl", place_j(cx, body, p))]),
+        Rvalue::Discriminant(p) => {
+            let pty = p.ty(&body.local_decls, tcx).ty;
+            let mut o = vec![("k", J::s("discr")), ("pl", place_j(cx, body, p)), ("ety", J::s(cx.ty(pty)))];
+            if let ty::Adt(adt, _) = pty.kind() {
+                if adt.is_enum() {
+                    let vs: Vec<J> = adt
+                        .discriminants(tcx)
+                        .map(|(vi, d)| {
+                            J::Arr(vec![J::s(adt.variant(vi).name.to_string()), J::Num(d.val as i128)])
+                        })
+                        .collect();
+                    o.push(("variants", J::Arr(vs)));
+                    o.push(("enum", J::s(cx.path(adt.did()))));
+                }
+            }
+            J::obj(o)
+        }
         Rvalue::CopyForDeref(p) => J::obj(vec![
             ("k", J::s("use")),
             ("op", J::obj(vec![("k", J::s("copy")), ("pl", place_j(cx, body, p))])),
@@ -669,12 +690,14 @@ fn terminator_j<'tcx>(
             let mut o = vec![
                 ("k", J::s("call")),
                 ("func", operand_j(cx, body, typing_env, func)),
-                ("fty", J::s(cx.ty(fty))),
                 ("args", J::Arr(argsj)),
                 ("dest", place_j(cx, body, destination)),
                 ("target", match target { Some(b) => bbn(*b), None => J::Null }),
                 ("unwind", unwind_j(unwind)),
             ];
+            if !matches!(func, Operand::Constant(_)) {
+                o.push(("fty", J::s(cx.ty(fty))));
+            }
             // calling a closure / coroutine-closure value through Fn* traits: record body
             match fty.kind() {
                 ty::Closure(did, _) | ty::Coroutine(did, _) => {
